@@ -37,9 +37,12 @@ type C10Case struct {
 	Progs    [][]C10Op `json:"progs"`
 	Sched    []int     `json:"sched,omitempty"`
 	AllSched bool      `json:"allsched,omitempty"` // enumerate every schedule (bounded by MaxSched)
+	Policy   int       `json:"policy,omitempty"`   // push policy installed on the shared stack: 0 none, 1 rejects the second value of every batch, 2 rejects everything pushed by goroutine 0
 	YieldRel bool      `json:"yieldrel,omitempty"` // also yield right after every unlock (code running after the critical section is interleaved too)
 	Free     bool      `json:"free,omitempty"`     // free-running (no scheduler)
 }
+
+var errRejected = fmt.Errorf("rejected by the push policy")
 
 type c10Result struct {
 	v    any
@@ -54,6 +57,20 @@ func (r c10Result) String() string {
 	return fmt.Sprintf("(%v,%v)", r.v, r.ok)
 }
 
+// c10Policy is the push policy of the case being checked (set by runC10; the model consults it too).
+var c10Policy int
+
+func c10Rejects(policy int, v any) bool {
+	str, _ := v.(string)
+	switch policy {
+	case 1:
+		return strings.HasSuffix(str, ".1")
+	case 2:
+		return strings.HasPrefix(str, "g0.")
+	}
+	return false
+}
+
 // value pushed by goroutine g, op index i, batch position k — unique and recognisable
 func c10Val(g, i, k int) any { return fmt.Sprintf("g%d.%d.%d", g, i, k) }
 
@@ -62,6 +79,12 @@ func c10ApplyModel(m *ListModel, g, i int, op C10Op) c10Result {
 	switch op.Op {
 	case "push":
 		for k := 0; k < op.N; k++ {
+			if m.Full() {
+				continue
+			}
+			if c10Rejects(c10Policy, c10Val(g, i, k)) {
+				break // the first rejection stops the batch
+			}
 			m.Push(c10Val(g, i, k))
 		}
 		return c10Result{void: true}
@@ -171,6 +194,15 @@ func c10Setup(c C10Case) (stackage.Stack, *ListModel, uintptr) {
 		v := fmt.Sprintf("init%d", i)
 		s.Push(v)
 		m.Push(v)
+	}
+	if c.Policy != 0 {
+		pol := c.Policy
+		s.SetPushPolicy(func(x ...any) error {
+			if len(x) == 1 && c10Rejects(pol, x[0]) {
+				return errRejected
+			}
+			return nil
+		})
 	}
 	s.SetMutex()
 	id, _ := stackage.VerifDump(s)["ptr"].(uintptr)
@@ -432,6 +464,11 @@ func lengthChanging(op string) bool {
 }
 
 func runC10(c C10Case) (st Stats, err error) {
+	c10Policy = c.Policy
+	defer func() { c10Policy = 0 }()
+	if c.Policy != 0 {
+		st.Class("push-policy-installed")
+	}
 	sens, chg := 0, 0
 	for _, p := range c.Progs {
 		s1, c1 := false, false
@@ -596,6 +633,9 @@ func genC10(t *rapid.T, tier Tier) C10Case {
 			c.Cap = 1
 		}
 	}
+	if rapid.IntRange(0, 3).Draw(t, "policy?") == 0 {
+		c.Policy = rapid.IntRange(1, 2).Draw(t, "policy")
+	}
 	G := rapid.IntRange(2, 3).Draw(t, "goroutines")
 	total := 0
 	for g := 0; g < G; g++ {
@@ -665,6 +705,11 @@ func enumC10(tier Tier, yield func(C10Case)) {
 					cp = init + 1
 				}
 				yield(C10Case{Kind: stackKinds[cfgN%5], FIFO: fifo, Cap: cp, Init: init, Progs: [][]C10Op{p1, p2}, AllSched: true})
+				if p1[0].Op == "push" && (len(p1)+len(p2) == 2 || tier.Thorough) {
+					// the same with a rejecting push policy (the error is recorded while the lock is held)
+					q1 := append([]C10Op{{Op: "push", N: 2}}, p1[1:]...)
+					yield(C10Case{Kind: stackKinds[cfgN%5], FIFO: fifo, Cap: cp, Init: init, Progs: [][]C10Op{q1, p2}, AllSched: true, Policy: 1 + cfgN%2})
+				}
 				if len(p1)+len(p2) == 2 || (tier.Thorough && (i+j)%3 == 0) {
 					yield(C10Case{Kind: stackKinds[cfgN%5], FIFO: fifo, Cap: cp, Init: init, Progs: [][]C10Op{p1, p2}, AllSched: true, YieldRel: true})
 				}
@@ -689,7 +734,7 @@ func enumC10(tier Tier, yield func(C10Case)) {
 func init() {
 	Register(Def[C10Case]{
 		ID: "C10",
-		Rule: "(A) deterministic, harness-owned schedules: 2-3 goroutines x 1-3 mutators (Push, Pop, Insert, Remove, Replace, Swap, Reverse, Reset) on a shared mutex-enabled stack of length 0..3, LIFO/FIFO, with/without capacity; a cooperative scheduler (verifPoint hook) parks each goroutine at every lock.want and at every operation boundary (and, in half of the generated cases and part of the enumerated ones, also right after every unlock, so that code running after the critical section is interleaved too) and the schedule picks who continues. " +
+		Rule: "(A) deterministic, harness-owned schedules: 2-3 goroutines x 1-3 mutators (Push, Pop, Insert, Remove, Replace, Swap, Reverse, Reset) on a shared mutex-enabled stack of length 0..3, LIFO/FIFO, with/without capacity, with/without a (rejecting) push policy; a cooperative scheduler (verifPoint hook) parks each goroutine at every lock.want and at every operation boundary (and, in half of the generated cases and part of the enumerated ones, also right after every unlock, so that code running after the critical section is interleaved too) and the schedule picks who continues. " +
 			"Enumeration: ALL schedules of 2 goroutines x <=2 ops over a 7-10 op alphabet on lengths 0..2 (quick: all single-op pairs and a deterministic seventh of the two-op pairs; thorough: all pairs plus 3x1). rapid: random programs and schedules. " +
 			"Oracle per execution: no panic; no self-deadlock, no parked-everybody deadlock, no lock leaked past an operation (from lock.held/lock.released ownership, deterministically); slot vector and configuration record (lock bookkeeping included) at lock.held equal those at the previous lock.released (shared state changes only under the lock); " +
 			"IsInit/kind/capacity/FIFO intact, Len<=capacity; every returned or remaining element was pushed or initial, at most once; brute-force linearizability: some order consistent with each goroutine's program reproduces every return value and the final content on the list model. " +
